@@ -218,7 +218,7 @@ def _impl_op(case):
     if k == "fromcoo":
         x = _coo(case["shape"], case["coords"], t)
         kw = {} if case["ti"] is None else {"idx_dtype": np.dtype(case["ti"])}
-        g = sparse.GCXS.from_coo(x, compressed_axes=(0,), **kw)
+        g = sparse.GCXS.from_coo(x, compressed_axes=(0,), **kw)     # n-d: rows = shape[0], cols = prod(shape[1:])
         return {"rows": [[int(v) for v in g.indices], [int(v) for v in g.indptr]], "dt": str(g.indices.dtype),
                 "dt2": str(g.indptr.dtype)}
     if k == "gjoin":
@@ -232,6 +232,12 @@ def _impl_op(case):
         from sparse.numba_backend._compressed.convert import uncompress_dimension
         return {"rows": [[int(v) for v in r.indptr], [int(v) for v in uncompress_dimension(r.indptr)]],
                 "dt": str(r.indptr.dtype), "ptrs": ptrs, "shape": list(r.shape)}
+    if k == "diag":
+        x = _coo(case["shape"], case["coords"], t)
+        r = sparse.diagonal(x, offset=case["offset"], axis1=case["axis1"], axis2=case["axis2"])
+        ids = set(int(v) for v in r.data)
+        assert len(ids) == r.nnz
+        return {"mask": [i in ids for i in range(1, x.nnz + 1)]}
     if k == "canon":
         # user-supplied coordinates in arbitrary order, with repeats: the constructor must sort and sum them
         n = len(case["coords"])
@@ -260,6 +266,19 @@ def _impl_op(case):
 def impl_op_batch(batch):
     """all op cases of one index dtype in one worker (the Numba kernels are compiled once per dtype)"""
     return [impl_op(c) for c in batch["items"]]
+
+
+_NB = {}
+
+
+def _numba_fns():
+    """per operator: (array element <op> scalar, array element <op> array element), Numba-compiled"""
+    if not _NB:
+        import numba
+        _NB[0] = (numba.njit(lambda a, k: a[0] + k), numba.njit(lambda a, b: a[0] + b[0]))
+        _NB[1] = (numba.njit(lambda a, k: a[0] - k), numba.njit(lambda a, b: a[0] - b[0]))
+        _NB[2] = (numba.njit(lambda a, k: a[0] * k), numba.njit(lambda a, b: a[0] * b[0]))
+    return _NB
 
 
 def impl_prim(case):
@@ -298,6 +317,19 @@ def impl_prim(case):
             return {"rows": [], "dt": str(np.min_scalar_type(case["z"]))}
         elif k == "fulltype":
             return {"rows": [], "dt": str(np.full(1, case["z"]).dtype)}
+        elif k in ("nbarrsc", "nbarrarr"):
+            import numba
+            fs = _numba_fns()
+            f = fs[case["op"]]
+            vals, rt = [], None
+            for i, v in enumerate(case["a"]):
+                x = np.array([v], dtype=case["t"])
+                y = np.dtype(case["kt"]).type(case["k"]) if k == "nbarrsc" else np.array([case["b"][i]], dtype=case["t2"])
+                g = f[0] if k == "nbarrsc" else f[1]
+                r = g(x, y)
+                rt = str(g.overloads[(numba.typeof(x), numba.typeof(y))].signature.return_type)
+                vals.append(int(r))
+            return {"rows": [vals], "dt": rt}
         else:
             raise ValueError(k)
         if r.dtype.kind == "f":
@@ -370,6 +402,93 @@ def gen_emptyidx_cases(tier, rng):
     return cases
 
 
+# ---- constructions with an explicit idx_dtype: accepted (values = NumPy, index dtype = the requested one) exactly
+#      when the type can hold what it has to hold; otherwise ValueError naming the dtype
+def impl_ctoridx(case):
+    import warnings
+
+    import numpy as np
+    import sparse
+    warnings.filterwarnings("ignore")
+    kind, t, shape = case["kind"], np.dtype(case["t"]), tuple(case["shape"])
+    rs = np.random.default_rng(3)
+    d = rs.integers(1, 9, size=shape) * (rs.random(shape) < case["dens"])
+    try:
+        if kind == "coo_from_numpy":
+            r = sparse.COO.from_numpy(d, idx_dtype=t)
+        elif kind == "coo_ctor":
+            x = sparse.COO.from_numpy(d)
+            r = sparse.COO(x.coords, x.data, shape=x.shape, idx_dtype=t)
+        elif kind == "as_coo":
+            r = sparse.as_coo(d, idx_dtype=t)
+        elif kind == "asformat_gcxs_from_dok":
+            r = sparse.DOK.from_numpy(d).asformat("gcxs", compressed_axes=(0,), idx_dtype=t)
+        elif kind == "gcxs_from_numpy":
+            r = sparse.GCXS.from_numpy(d, compressed_axes=(0,), idx_dtype=t)
+        elif kind == "gcxs_from_coo":
+            r = sparse.GCXS.from_coo(sparse.COO.from_numpy(d), compressed_axes=(0,), idx_dtype=t)
+        elif kind == "asformat_gcxs":
+            r = sparse.COO.from_numpy(d).asformat("gcxs", compressed_axes=(0,), idx_dtype=t)
+        elif kind == "random":
+            r = sparse.random(shape, density=0.05, random_state=1, idx_dtype=t)
+            d = r.todense()
+        else:
+            raise ValueError(kind)
+        idt = str(r.coords.dtype) if hasattr(r, "coords") else str(r.indices.dtype)
+        return {"ok": bool(np.array_equal(r.todense(), d)), "idx": idt, "nnz": int(r.nnz)}
+    except Exception as ex:  # noqa: BLE001
+        e = _exc(ex)
+        return {"exc": e["exc"], "cls": e["cls"], "msg": e["msg"], "nnz": int(np.count_nonzero(d))}
+
+
+def impl_ctoridx_batch(batch):
+    return [impl_ctoridx(c) for c in batch["items"]]
+
+
+def gen_ctoridx_cases(tier, rng):
+    cases = []
+    kinds = ["coo_from_numpy", "coo_ctor", "as_coo", "asformat_gcxs_from_dok", "gcxs_from_numpy", "gcxs_from_coo", "asformat_gcxs", "random"]
+    for t in TYPES:
+        hi = thi(t)
+        shapes = []
+        if tbits(t)[0] == 8:
+            # size beyond the dtype while every axis fits; one axis at / above the limit; small
+            shapes = [[10, 30, 30], [hi, 3], [hi + 1, 3], [3, hi], [2, hi + 1], [5, 6], [20, 20, 3], [min(hi, 200), 2, 2]]
+        elif tbits(t)[0] == 16:
+            shapes = [[40, 40, 40], [hi, 2], [hi + 1, 2], [2, hi + 1], [300, 300]]
+        else:
+            shapes = [[10, 30, 30], [300, 300], [70000, 2]]
+        for shape in shapes:
+            for kind in (kinds if tier != "quick" else rng.sample(kinds, 5)):
+                cases.append(dict(kind=kind, t=t, shape=shape, dens=0.05 if max(shape) > 1000 else 0.2))
+    return cases
+
+
+def ctoridx_expect(case, r):
+    """None when the outcome is acceptable, else a description"""
+    t, shape = case["t"], case["shape"]
+    if case["kind"].startswith(("gcxs", "asformat")):
+        rows, cols = shape[0], 1
+        for e in shape[1:]:
+            cols *= e
+        need = max(rows, cols, r.get("nnz", 0))
+        need_coo = max(shape) if case["kind"] == "gcxs_from_numpy" else 0
+        fits = need <= thi(t) and need_coo <= thi(t)
+    else:
+        fits = max(shape) <= thi(t)
+    if "exc" in r:
+        if r["exc"] == "ValueError" and not fits:
+            return None
+        return ("rejected although the type holds every extent" if fits else "wrong exception") + f": {r.get('cls')} {r.get('msg')}"
+    if not fits:
+        return "accepted although the type cannot hold it"
+    if not r["ok"]:
+        return "values differ from NumPy"
+    if r["idx"] != t:
+        return f"index dtype {r['idx']} instead of the requested {t}"
+    return None
+
+
 # ---- index ARRAYS of narrow integer dtypes (fancy indexing): the result must not depend on the array's dtype
 def impl_idxarr(case):
     import warnings
@@ -410,6 +529,16 @@ def gen_idxarr_cases(tier, rng):
                 for fmt in (("coo", "gcxs", "dok") if tier != "quick" else ("coo", rng.choice(["gcxs", "dok"]))):
                     cases.append(dict(n=n, dt=dt, idx=idx, fmt=fmt))
     return cases
+
+
+def _npz_roundtrip(x):
+    import io
+
+    import sparse
+    buf = io.BytesIO()
+    sparse.save_npz(buf, x)
+    buf.seek(0)
+    return sparse.load_npz(buf)
 
 
 # ---- differential stream
@@ -453,6 +582,11 @@ def _diff_calls():
         "tril_m": lambda x: sparse.tril(x, -2),
         "diagonal": lambda x: sparse.diagonal(x[: min(x.shape), : min(x.shape)]),
         "diagonal_1": lambda x: sparse.diagonal(x[: min(x.shape), : min(x.shape)], 1),
+        "diagonal_m1": lambda x: sparse.diagonal(x[: min(x.shape), : min(x.shape)], -1),
+        "diagonal_m3_ax": lambda x: sparse.diagonal(x[: min(x.shape), : min(x.shape)], -3, axis1=1, axis2=0),
+        "diagonalize": lambda x: sparse.diagonalize(x, axis=0),
+        "npz_roundtrip": _npz_roundtrip,
+        "gcxs_single": lambda x: np.array([gcxs(x)[tuple(int(v) for v in x.coords[:, -1])], gcxs(x)[(0,) * x.ndim]]),
         "concat_0": lambda x: sparse.concatenate([x, x, x], axis=0),
         "concat_last": lambda x: sparse.concatenate([x, x], axis=-1),
         "stack_0": lambda x: sparse.stack([x, x], axis=0),
@@ -484,6 +618,19 @@ def _diff_calls():
         "gcxs_stack": lambda x: sparse.stack([gcxs(x), gcxs(x)], axis=0),
         "gcxs_dot": lambda x: sparse.dot(gcxs(x), gcxs(x).T) if x.ndim == 2 else sparse.dot(gcxs(x), gcxs(x)),
     }
+
+    # GCXS built with an EXPLICIT narrow index dtype (no automatic widening), then reduced / re-compressed
+    def gx(x):
+        return sparse.GCXS.from_coo(x, compressed_axes=(0,), idx_dtype=x.coords.dtype)
+    calls.update({
+        "gx_sum_last": lambda x: gx(x).sum(axis=-1),
+        "gx_sum_0": lambda x: gx(x).sum(axis=0),
+        "gx_sum_1": lambda x: gx(x).sum(axis=1),
+        "gx_max_last": lambda x: gx(x).max(axis=-1),
+        "gx_cca": lambda x: gx(x).change_compressed_axes((x.ndim - 1,)).tocoo(),
+        "gx_T": lambda x: gx(x).T.tocoo(),
+        "gx_dense": lambda x: gx(x).todense(),
+    })
 
     # consumers that rely on the canonical (sorted, duplicate-free) order, after producers that hand unordered /
     # repeated coordinates to the constructor: user coordinates (how="unsorted"), flip, einsum
@@ -565,6 +712,11 @@ def impl_diff(case):
                     n = len(coords)
                     c = np.array(coords, dtype=np.int64).reshape(n, len(shape)).T.astype(tt)
                     x = sparse.COO(c, np.arange(1, n + 1, dtype=np.int64), shape=tuple(shape))   # sorts + sums duplicates
+                elif how == "rand3d":
+                    rs = np.random.default_rng(7)
+                    d = rs.integers(1, 9, size=tuple(shape)) * (rs.random(tuple(shape)) < 0.08)
+                    x0 = sparse.COO.from_numpy(d)
+                    x = sparse.COO(x0.coords.astype(tt), x0.data, shape=x0.shape, sorted=True, has_duplicates=False)
                 elif how == "member3d":
                     rs = np.random.default_rng(42)
                     d = rs.integers(1, 10, size=tuple(shape))
@@ -708,6 +860,25 @@ def gen_op_cases(tier, rng):
                 nn = rng.choice([3, 6] + ([130, 260] if rows * cols >= 260 else []))
                 lin = sorted(rng.sample(range(rows * cols), min(nn, rows * cols)))
                 cases.append(dict(kind="fromcoo", t=t, ti=ti, shape=[rows, cols], coords=[[l // cols, l % cols] for l in lin]))
+        # ---- GCXS from a 3-d COO: the product of the uncompressed extents exceeds the dtype while every extent fits
+        for _ in range(2 * reps):
+            a, b, c = rng.choice([2, 3]), rng.choice([x for x in (10, 16, 20, 100, 200) if x <= thi(t)]), rng.choice([3, 16, 20])
+            if c > thi(t):
+                continue
+            cells = [[i, j, k] for i in range(a) for j in pick_coords(rng, b, 3) for k in pick_coords(rng, c, 3)]
+            cs = sorted(rng.sample(cells, min(len(cells), 8)))
+            cases.append(dict(kind="fromcoo", t=t, ti=None, shape=[a, b, c], coords=cs))
+        # ---- GCXS joins whose stored-element counts sum to exactly capacity - 1, capacity, capacity + 1
+        if tbits(t)[0] == 8:
+            for total in (thi(t) - 1, thi(t), thi(t) + 1, thi(t) + 2):
+                cols = 4
+                parts = [total // 2, total - total // 2]
+                ops = []
+                for nn in parts:
+                    rows = -(-nn // cols) + 1
+                    lin = sorted(rng.sample(range(rows * cols), nn))
+                    ops.append(([rows, cols], [[l // cols, l % cols] for l in lin]))
+                cases.append(dict(kind="gjoin", t=t, ops=ops, how="concat"))
         # ---- GCXS joins and the row numbers of the result
         for _ in range(3 * reps):
             rows = rng.choice([x for x in exts if x <= 300])
@@ -718,6 +889,30 @@ def gen_op_cases(tier, rng):
                 lin = sorted(rng.sample(range(rows * cols), nn))
                 ops.append(([rows, cols], [[l // cols, l % cols] for l in lin]))
             cases.append(dict(kind="gjoin", t=t, ops=ops, how="concat"))
+        # ---- diagonal: offsets of both signs, every axis pair (2-d and 3-d), stored elements on / next to the diagonals
+        for _ in range(5 * reps):
+            n = rng.choice([x for x in exts if x <= 70000 and x >= 2])
+            offs = sorted({0, 1, -1, rng.choice([2, -2, 3, -3]), rng.choice([n - 1, -(n - 1), 127, -128, 255, -255, n // 2, -(n // 2)])})
+            for off in offs:
+                if abs(off) >= n:
+                    continue
+                rows = [r for r in pick_coords(rng, n, 5) if 0 <= r + off < n]
+                pts = {(r, r + off) for r in rows} | {(r, min(n - 1, max(0, r + off + rng.choice([-1, 1])))) for r in rows[:2]}
+                if rng.random() < 0.5:
+                    a1, a2 = 0, 1
+                    cs = sorted([p[0], p[1]] for p in pts)
+                    shape = [n, n]
+                else:
+                    a1, a2 = rng.choice([(0, 2), (2, 0), (1, 2), (2, 1), (1, 0)])
+                    shape, cs = [2, 2, 2], []
+                    shape[a1] = shape[a2] = n
+                    other = ({0, 1, 2} - {a1, a2}).pop()
+                    for p in pts:
+                        c = [0, 0, 0]
+                        c[a1], c[a2], c[other] = p[0], p[1], rng.randrange(2)
+                        cs.append(c)
+                    cs.sort()
+                cases.append(dict(kind="diag", t=t, shape=shape, coords=cs, offset=off, axis1=a1, axis2=a2))
         # ---- constructor canonicalisation: coordinates given out of order / repeated (1-d and 2-d)
         for _ in range(6 * reps):
             n = rng.choice(exts)
@@ -792,6 +987,14 @@ def gen_prim_cases(tier, rng):
         cases.append(dict(kind="minscalar", z=z))
     for z in [0, 1, -1, 255, -2**31, 2**31, 2**32, 2**63 - 1, 2**63, 2**63 + 1, 2**64 - 4, 2**64 - 1, -2**63]:
         cases.append(dict(kind="fulltype", z=z))
+    # Numba's scalar promotion (MachInt.nb_promote): element <op> int64 scalar, element <op> element
+    for t in TYPES:
+        for op in range(3):
+            for kv in (-7, 3):
+                cases.append(dict(kind="nbarrsc", op=op, t=t, kt="int64", a=[0, 1, 5, 100], k=kv))
+            for t2 in TYPES:
+                if t2 == t or (t, t2) in (("uint8", "int8"), ("int16", "uint32"), ("uint64", "int8"), ("uint32", "int64")):
+                    cases.append(dict(kind="nbarrarr", op=op, t=t, t2=t2, a=[5, 3, 0, 100], b=[3, 5, 1, 100]))
     return cases
 
 
@@ -801,14 +1004,46 @@ JIT_HEAVY = {"dot_T", "matmul_self", "tensordot_11", "einsum_ji_i", "einsum_ji_i
              "ms_join_T_dense", "ms_join_reshape_sum", "ms_join_flat", "ms_stack_cca", "ms_join_sum0", "ms_join_max12",
              "gcxs_fancy_rep", "sort", "dot", "gcxs_dot", "getitem_fancy", "getitem_last", "getitem_int", "gcxs_getitem", "gcxs_getitem_neg",
              "gcxs_stack", "gcxs_reshape", "gcxs_concat", "gcxs_concat_dense", "to_gcxs_back", "gcxs_T", "gcxs_sum0",
-             "sum_all", "min_last", "mul_self", "add_bcast", "diagonal", "diagonal_1"}
+             "sum_all", "min_last", "mul_self", "add_bcast"}
 QUICK_HEAVY_TYPES = {"int8", "uint8", "uint16", "uint64"}
+
+
+# calls whose result needs no larger extent and no more stored elements than the operand has: the operand's own
+# index type can hold the result, so even a ValueError naming the dtype is a violation there
+NO_REJECT = ("npz_", "transpose", "sum_", "max_", "min_", "any_", "getitem_", "flip", "triu", "tril", "diagonal_",
+             "sort", "nonzero", "us_", "mul_self")
 
 
 def gen_diff_items(tier, rng):
     items = []
     allnames = list(_diff_calls().keys())
-    names = [n for n in allnames if not n.startswith(("ms_", "us_"))]
+    names = [n for n in allnames if not n.startswith(("ms_", "us_", "gx_"))]
+    # GCXS with an explicit narrow index dtype: small compressed shape, re-compression grows the row count
+    for t in TYPES:
+        for shape in ([20, 20, 3], [17, 16, 2], [3, 20, 20]) if tbits(t)[0] == 8 else ([200, 200, 3],) if tbits(t)[0] == 16 else ([20, 20, 3],):
+            if tier == "quick" and shape != [20, 20, 3] and shape != [200, 200, 3]:
+                continue
+            for name in allnames:
+                if name.startswith("gx_"):
+                    items.append((name, shape, [], t, "rand3d"))
+    # structural extraction for every index type, and arrays whose extent is just beyond what the coordinate
+    # dtype could hold as a value (coordinates up to the dtype's maximum): save / load and basic operations
+    for t in TYPES:
+        n = min(thi(t), 200)
+        cs = sorted({(r, c) for r in pick_coords(rng, n, 4) for c in pick_coords(rng, n, 4)} |
+                    {(r, r - 1) for r in pick_coords(rng, n, 4) if r >= 1} | {(r, r - 3) for r in pick_coords(rng, n, 4) if r >= 3})
+        cs = [list(c) for c in cs]
+        for name in ("diagonal", "diagonal_1", "diagonal_m1", "diagonal_m3_ax", "diagonalize", "triu_m", "tril_m", "npz_roundtrip",
+                     "gcxs_single"):
+            items.append((name, [n, n], cs, t, "coords"))
+        if tbits(t)[0] <= 16:
+            n = thi(t) + 1
+            cs = [[c] for c in sorted({0, 1, n // 2, n - 2, n - 1})]
+            for name in ("npz_roundtrip", "sum_0", "getitem_neg", "flip", "reshape_2", "concat_0", "to_gcxs_back", "roll_1"):
+                items.append((name, [n], cs, t, "coords"))
+            cs2 = [[0, 0], [1, n - 1], [2, n // 2], [2, n - 1]]
+            for name in ("npz_roundtrip", "sum_0", "sum_last", "transpose", "flip", "to_gcxs_back", "diagonal_m1"):
+                items.append((name, [3, n], cs2, t, "coords"))
     # GCXS fancy indexing that repeats rows, narrow signed index types (finding gcxs_fancy_getitem_indptr_dtype)
     for t in ("int8", "int16"):
         n = 127 if t == "int8" else 32767
@@ -935,8 +1170,16 @@ def op_literal(case, res):
     elif k == "ctor":
         oc = f"(CCtor {vity(case['ti'])} {vZ(max(case['shape']))} {zl(axis_row(case['coords'], 0))})"
     elif k == "fromcoo":
-        rows, cols = case["shape"]
-        lin = [c[0] * cols + c[1] for c in case["coords"]]
+        sh = case["shape"]
+        rows, cols = sh[0], 1
+        for e in sh[1:]:
+            cols *= e
+        lin = []
+        for c in case["coords"]:
+            v = 0
+            for e, ci in zip(sh[1:], c[1:], strict=True):
+                v = v * e + ci
+            lin.append(c[0] * cols + v)
         idx = "None" if case["ti"] is None else f"(Some {vity(case['ti'])})"
         oc = f"(CFromCoo {idx} {vZ(rows)} {vZ(cols)} {zl(lin)})"
     elif k == "gjoin":
@@ -946,6 +1189,9 @@ def op_literal(case, res):
         oc = f"(CGcxsJoin [{'; '.join(ptrs)}])"
     elif k == "uncompress":
         oc = f"(CUncompress {zl(case['indptr'])})"
+    elif k == "diag":
+        oc = (f"(CDiag {zl(axis_row(case['coords'], case['axis1']))} {zl(axis_row(case['coords'], case['axis2']))} "
+              f"{vZ(case['offset'])})")
     elif k == "canon":
         sh = case["shape"]
         lin = [c[0] if len(sh) == 1 else c[0] * sh[1] + c[1] for c in case["coords"]]
@@ -1003,6 +1249,10 @@ def prim_literal(case, res):
         pc = f"(PCanStore {t} {vZ(case['z'])})"
     elif k == "fulltype":
         pc = f"(PFullType {vZ(case['z'])})"
+    elif k == "nbarrsc":
+        pc = f"(PNbArrSc {case['op']} {t} {vity(case['kt'])} {vlist(case['a'])} {vZ(case['k'])})"
+    elif k == "nbarrarr":
+        pc = f"(PNbArrArr {case['op']} {t} {vity(case['t2'])} {vlist(case['a'])} {vlist(case['b'])})"
     else:
         pc = f"(PMinScalar {vZ(case['z'])})"
     return vpair(pc, iout_literal(res))
@@ -1101,7 +1351,7 @@ def campaign(build, tier, seed, report, budget=1):
     tag_hist = {}
     names = {1: "concat", 2: "flip", 3: "roll", 4: "roll_tuple", 5: "getitem", 6: "reshape", 7: "reduce", 8: "triu_tril",
              9: "kron", 10: "pad", 11: "stack", 12: "ctor_idx_dtype", 13: "gcxs_from_coo", 14: "gcxs_join", 15: "uncompress",
-             16: "gcxs_join_then_transpose", 17: "ctor_canonicalisation"}
+             16: "gcxs_join_then_transpose", 17: "ctor_canonicalisation", 18: "diagonal"}
     sub = {0: "equal", 1: "guard_ValueError", 2: "outside_domain"}
     assert len(tagged) == len(olits), (len(tagged), len(olits))
     for _j, v in tagged:
@@ -1135,7 +1385,7 @@ def campaign(build, tier, seed, report, budget=1):
             if _norm_plain(ref) == _norm_plain(got):
                 d_same += 1
                 continue
-            if got.get("k") == "exc" and got["exc"] == "ValueError":
+            if got.get("k") == "exc" and got["exc"] == "ValueError" and not name.startswith(NO_REJECT):
                 d_valueerr += 1
                 continue
             if ref.get("k") == "exc" and got.get("k") == "exc" and ref.get("cls") == got.get("cls"):
@@ -1166,6 +1416,25 @@ def campaign(build, tier, seed, report, budget=1):
                      "replay_py": "import sys; sys.path.insert(0, '/verif/tools'); from props import c15; "
                                   f"print(c15.impl_idxarr({c!r}))"})
     lap("idxarr")
+    # ---- stream ctoridx: constructions with an explicit idx_dtype, both the accepting and the rejecting side
+    ccases = gen_ctoridx_cases(tier, rng)
+    cb = [ccases[k::6] for k in range(6)]
+    cbres = vlib.run_impl("props.c15", "impl_ctoridx_batch", [{"items": b} for b in cb], workers=6, per_case_timeout=300.0)
+    c_bad = 0
+    for k, rs in enumerate(cbres):
+        for j, c in enumerate(cb[k]):
+            r = rs[j] if isinstance(rs, list) else dict(rs)
+            why = ctoridx_expect(c, r) if ("ok" in r or "exc" in r) else "hang/crash"
+            if why is None:
+                continue
+            c_bad += 1
+            viol.append({"property": "C15", "op": "ctor_idx_dtype:" + c["kind"], "kind": "value", "clause": None,
+                         "idx_dtype": c["t"], "case": c, "impl": r, "why": why,
+                         "replay_py": "import sys; sys.path.insert(0, '/verif/tools'); from props import c15; "
+                                      f"print(c15.impl_ctoridx({c!r}))"})
+    cov.setdefault("streams_extra", {})["ctoridx"] = len(ccases)
+    cov["streams_extra"]["ctoridx_bad"] = c_bad
+    lap("ctoridx")
     # ---- stream emptyidx: library-made arrays without stored elements combined with ordinary arrays, against NumPy
     ecases = gen_emptyidx_cases(tier, rng)
     eb = [ecases[k::6] for k in range(6)]
@@ -1188,7 +1457,7 @@ def campaign(build, tier, seed, report, budget=1):
     cov["streams_extra"]["emptyidx_bad"] = e_bad
     lap("emptyidx")
     report["notes"].append(f"timing (s): {timing}")
-    cov["evaluations"] = len(pcases) + len(ocases) + d_total + len(icases) + len(ecases)
+    cov["evaluations"] = len(pcases) + len(ocases) + d_total + len(icases) + len(ecases) + len(ccases)
     cov["distinct_nontrivial"] = len({json.dumps(c, sort_keys=True, default=str) for c in ocases}) + \
         len({json.dumps(c, sort_keys=True) for c in pcases}) + len({json.dumps(i) for i in items})
     cov["rule"] = ("prim: NumPy rules on the eight index types with operands at each type's limits; op: every modelled "
@@ -1221,6 +1490,10 @@ def _short(p):
 def diff_clause(name, t, got):
     """clause tag of a differential violation: only the defect classes still open in /repo"""
     cls = got.get("cls")
+    if t == "uint64" and cls in ("TypeError", "IndexError", "TypingError"):
+        return "uint64_promotes_to_float"
+    if name.startswith("gx_sum") or name.startswith("gx_max"):
+        return "gcxs_reduce_rows_in_operand_indptr_dtype"
     if name == "gcxs_fancy_rep" and not t.startswith("u"):
         return "gcxs_fancy_getitem_indptr_dtype"
     if name.startswith("gcxs_getitem") or (name.startswith("gcxs") and cls == "AttributeError"):
